@@ -240,6 +240,80 @@ theorem sphere_radius_bound_step (β rhat ρ R dist : α) (hβ0 : 0 ≤ β) (hβ
     R + β / (1 + 1) * (max R dist - R) ≤ rhat * (1 - ρ) :=
   le_trans (sphere_radius_between β R dist hβ0 hβ1).2 ((sphere_match_ge_iff rhat ρ R dist hr).mp hpass)
 
+/-- the stored radius of an updated Hypersphere weight is the radius rule applied to the old radius -/
+theorem sphUpdate_radius [Transc α] (β : α) (x w : List α) :
+    sphRadius (sphUpdate β x w) =
+      sphRadius w + β / (1 + 1) * (max (sphRadius w) (sphDist x w) - sphRadius w) := by
+  unfold sphUpdate sphRadius
+  simp
+
+/-- **Radius bound as an invariant of training** (Hypersphere ART, every mode that never lowers the
+threshold: no reset function, MT+, MT0, MT1, MT~ with `eps ≥ 0`): if every stored radius is at most
+`r̂(1 − rho)` then so is every radius after the step — new categories start at radius 0. -/
+theorem sphere_radius_bound_invariant [Transc α] (alpha β rhat ρ eps top : α) (hβ0 : 0 ≤ β) (hβ1 : β ≤ 1)
+    (hr : 0 < rhat) (hρ1 : ρ ≤ 1) (heps : 0 ≤ eps) (htop : ρ ≤ top) (mode : MT) (hmode : mode ≠ .minus)
+    (veto : Nat → Bool) (s : ArtState (List α)) (x : List α)
+    (hinv : ∀ w ∈ s.W, sphRadius w ≤ rhat * (1 - ρ)) :
+    ∀ w ∈ (stepFit (sphKernel alpha β rhat)
+        (scalarCfg mode false (· + eps) (· - eps) top) ρ veto s x).1.W, sphRadius w ≤ rhat * (1 - ρ) := by
+  set K := sphKernel alpha β rhat
+  set cfg : SearchCfg α α := scalarCfg mode false (· + eps) (· - eps) top
+  have hQ : ∀ th m, ρ ≤ th → cfg.passes th m = true → ρ ≤ cfg.track th m := by
+    intro th m hth hp
+    cases mode <;>
+      simp only [cfg, scalarCfg, trackScalar, passesScalar, mtStrict, decide_eq_true_eq] at hp ⊢
+    · linarith
+    · exact absurd rfl hmode
+    · exact le_of_lt (lt_of_le_of_lt hth hp)
+    · exact htop
+    · exact hth
+  have hnew : sphRadius (sphNew x) ≤ rhat * (1 - ρ) := by
+    have : sphRadius (sphNew x) = 0 := by simp [sphRadius, sphNew]
+    rw [this]
+    exact mul_nonneg (le_of_lt hr) (by linarith)
+  intro w' hw'
+  unfold stepFit at hw'
+  split at hw'
+  · simp only [applyWinner, List.mem_append, List.mem_singleton] at hw'
+    rcases hw' with h | h
+    · exact hinv _ h
+    · rw [h]; exact hnew
+  · cases hwin : (stepSearch K cfg ρ veto s.W x).winner with
+    | none =>
+      rw [hwin] at hw'
+      simp only [applyWinner, List.mem_append, List.mem_singleton] at hw'
+      rcases hw' with h | h
+      · exact hinv _ h
+      · rw [h]; exact hnew
+    | some c =>
+      rw [hwin] at hw'
+      have hlt := stepSearch_winner_lt K cfg ρ veto s.W x c hwin
+      obtain ⟨th, hth, hp⟩ := stepSearch_winner_passes K cfg ρ veto s.W x c (fun t => ρ ≤ t) le_rfl hQ hwin
+      have hwc : s.W[c]? = some s.W[c] := List.getElem?_eq_getElem hlt
+      simp only [applyWinner, hwc] at hw'
+      obtain ⟨i, hi⟩ := List.getElem?_of_mem hw'
+      by_cases e : c = i
+      · subst e
+        rw [List.getElem?_set_self hlt] at hi
+        simp only [Option.some.injEq] at hi
+        subst hi
+        have hmatch : matchAt K s.W x c = sphMatch rhat x s.W[c] := by
+          simp [matchAt, hwc, K, sphKernel]
+        rw [hmatch] at hp
+        have hpass : ρ ≤ sphMatch rhat x s.W[c] := by
+          cases mode <;>
+            simp only [cfg, scalarCfg, passesScalar, mtStrict, decide_eq_true_eq] at hp
+          · linarith
+          · exact absurd rfl hmode
+          · exact le_of_lt (lt_of_le_of_lt hth hp)
+          · linarith
+          · exact le_of_lt (lt_of_le_of_lt hth hp)
+        show sphRadius (sphUpdate β x s.W[c]) ≤ rhat * (1 - ρ)
+        rw [sphUpdate_radius]
+        exact sphere_radius_bound_step β rhat ρ _ _ hβ0 hβ1 hr hpass
+      · rw [List.getElem?_set_ne e] at hi
+        exact hinv _ (List.mem_of_getElem? hi)
+
 /-- Ellipsoid ART has the same radius rule with `M = 1 − (R + max(R,dist))/r̂`:
 passing `M ≥ rho` bounds the new radius by `r̂(1 − rho)/2`. -/
 theorem ellipsoid_radius_bound_step (β rhat ρ R dist : α) (hβ0 : 0 ≤ β) (hβ1 : β ≤ 1) (hr : 0 < rhat)
